@@ -563,7 +563,12 @@ class Worker:
                         if z is None:
                             buffer.put(z)
                             q_in.put(z)  # broadcast to fellow workers.
-                            q_out.put(z)
+                            # Do not forward the end marker to `q_out` here: the main loop
+                            # is still working on the batches collected so far, and it forwards
+                            # the marker itself once it takes it out of `buffer`, i.e. *behind*
+                            # their results. A marker sent from this thread would overtake them;
+                            # the reader of `q_out` stops at the marker, and the results
+                            # then written to an unread (pipe-backed) queue block this worker for good.
                             return
                         uid, x = z
 
